@@ -53,7 +53,9 @@ func genC11BinKey(t *rapid.T) BinKeyCase {
 	pool := []string{"ff", "61ff62", "c328", "fffe00", "e28228", "6b00ff", "f0288cbc", "c0af", "eda080"}
 	for n := rapid.IntRange(1, 3).Draw(t, "nkeys"); n > 0; n-- {
 		if rapid.IntRange(0, 3).Draw(t, "valid") == 0 {
-			c.KeysHex = append(c.KeysHex, rapid.SampledFrom([]string{"61", "d0bad0bbd18ed187", "2f612f62"}).Draw(t, "validKey"))
+			// "-" stands for the empty key: what the inline client does with it (Set refuses it, Delete and the
+			// reads do whatever they do) is what the gRPC client has to do as well
+			c.KeysHex = append(c.KeysHex, rapid.SampledFrom([]string{"61", "d0bad0bbd18ed187", "2f612f62", "-", "-"}).Draw(t, "validKey"))
 		} else if rapid.Bool().Draw(t, "fromPool") {
 			c.KeysHex = append(c.KeysHex, rapid.SampledFrom(pool).Draw(t, "poolKey"))
 		} else {
@@ -70,3 +72,30 @@ func genC11BinKey(t *rapid.T) BinKeyCase {
 }
 
 func TestC11BinKey(t *testing.T) { ev.Check(t, "C11", "binkey", genC11BinKey, ExecC11BinKey) }
+
+// genC11FileDiff draws the life of one file handle: writes of boundary sizes, a storing side that
+// succeeds, rejects the key or runs out of space, and one to three Close calls.
+func genC11FileDiff(t *rapid.T) FileDiffCase {
+	var c FileDiffCase
+	switch rapid.IntRange(0, 3).Draw(t, "outcome") {
+	case 0:
+		c.EmptyKey = true
+	case 1:
+		c.NoSpace = rapid.SampledFrom([]int{1, 2047, 2048, 5000, 32768, 100000}).Draw(t, "noSpaceAfter")
+	}
+	if rapid.Bool().Draw(t, "prev") {
+		c.Prev = rapid.IntRange(1, 3000).Draw(t, "prevLen")
+	}
+	c.InTx = rapid.IntRange(0, 3).Draw(t, "inTx") == 0
+	sizes := []int{0, 1, 100, 2047, 2048, 2049, 4096, 5000, 32768, 70000, 200000, 300000}
+	if rapid.IntRange(0, 9).Draw(t, "huge") == 0 {
+		sizes = append(sizes, 1<<20, 3<<20)
+	}
+	for n := rapid.IntRange(0, 6).Draw(t, "nwrites"); n > 0; n-- {
+		c.Writes = append(c.Writes, rapid.SampledFrom(sizes).Draw(t, "size"))
+	}
+	c.Closes = rapid.SampledFrom([]int{1, 1, 2, 2, 3}).Draw(t, "closes")
+	return c
+}
+
+func TestC11FileDiff(t *testing.T) { ev.Check(t, "C11", "filediff", genC11FileDiff, ExecC11FileDiff) }
